@@ -21,7 +21,8 @@
 (*       every value returned Inhabits the type of its column              *)
 (*  WellTyped /\ ~Determined: outside the quantifier (no demand).          *)
 (* A failing case is re-judged under each named deviation to say which     *)
-(* one (if any) explains the disagreement.                                 *)
+(* one (if any) explains the disagreement (accept / reject and printed     *)
+(* signatures; the values are a consequence and are not re-judged).        *)
 (***************************************************************************)
 EXTENDS LTyping, Json, IOUtils, TLCExt
 
@@ -49,7 +50,7 @@ ValueFaults(c, inf) ==
                      DOMAIN o.rows[j] # (DOMAIN inf.sig[o.p]) \ {"$"}}}
     : k \in 1..Len(c.obs.preds)}
 
-JudgeWith(c, inf) ==
+JudgeWith(c, inf, strict) ==
   IF ~inf.ok
   THEN IF c.obs.ctor = TypeErr THEN [ok |-> TRUE, why |-> "ill typed, rejected with a type error"]
        ELSE [ok |-> FALSE, why |-> "ill-typed program was not rejected with a type error"]
@@ -63,17 +64,17 @@ JudgeWith(c, inf) ==
   THEN [ok |-> FALSE, why |-> "accepted program failed to compile or run"]
   ELSE IF SigDiff(c, inf) # {}
   THEN [ok |-> FALSE, why |-> "printed signature differs from Signature"]
-  ELSE IF ValueFaults(c, inf) # {}
+  ELSE IF strict /\ ValueFaults(c, inf) # {}
   THEN [ok |-> FALSE, why |-> "a returned value does not inhabit the type of its column"]
   ELSE [ok |-> TRUE, why |-> "well typed: accepted, signatures equal, values inhabit"]
 
 Judge(c) ==
   LET inf == Infer(c.prog)
-      j == JudgeWith(c, inf)
+      j == JudgeWith(c, inf, TRUE)
       explains == IF j.ok THEN {}
-                  ELSE {d \in TypingDeviations : JudgeWith(c, InferDev(c.prog, {d})).ok}
+                  ELSE {d \in TypingDeviations : JudgeWith(c, InferDev(c.prog, {d}), FALSE).ok}
       all == IF j.ok \/ explains # {} THEN FALSE
-             ELSE JudgeWith(c, InferDev(c.prog, TypingDeviations)).ok
+             ELSE JudgeWith(c, InferDev(c.prog, TypingDeviations), FALSE).ok
       nvals == LET RECURSIVE Sum(_)
                    Sum(k) == IF k = 0 THEN 0
                              ELSE Sum(k - 1) + Len(c.obs.preds[k].rows) * Cardinality(DOMAIN SigOf(c.obs, c.obs.preds[k].p) \ {"$"})
